@@ -1,8 +1,9 @@
 package worlds
 
 import (
-	"sort"
+	"context"
 	"fmt"
+	"sort"
 	"sync"
 	"time"
 
@@ -33,7 +34,10 @@ func RunHealth(s *sim.Sim, uniq string) *Health {
 	w := &Health{S: s, Stats: map[string]int{}, P: map[string]any{}}
 	verifhook.YieldFunc = s.Yield
 	verifhook.ProbeFunc = s.Probe
-	if s.Ch.Bool("params", "arm_checker") {
+	if s.Ch.Chance("params", "arm_lifetime", 1, 6) {
+		w.Arm = "lifetime"
+		w.runLifetime(uniq)
+	} else if s.Ch.Bool("params", "arm_checker") {
 		w.Arm = "checker"
 		w.runChecker(uniq)
 	} else {
@@ -42,6 +46,95 @@ func RunHealth(s *sim.Sim, uniq string) *Health {
 	}
 	w.P["arm"] = w.Arm
 	return w
+}
+
+// ---------- (c) the lifetime of an address's conditions across cluster-manager operations ----------
+//
+// One address is a member of two clusters of the cluster manager. A drawn history of operations — a condition
+// set or cleared through some cluster's current host object, the address removed from a cluster, a cluster's
+// hosts delivered again (fresh host objects), the address appended again — and after every operation every
+// host object that currently stands for the address, in either cluster, reports exactly the conditions that
+// were set and not cleared ("setting or clearing one condition never loses or invents another"), and is
+// healthy exactly when there is none.
+func (w *Health) runLifetime(uniq string) {
+	s, ch := w.S, w.S.Ch
+	cm := cluster.NewClusterManagerSingleton(nil, nil, nil)
+	addr := fmt.Sprintf("10.8.%s.1:80", uniq)
+	other := fmt.Sprintf("10.8.%s.2:80", uniq)
+	names := []string{"hl" + uniq + "a", "hl" + uniq + "b"}
+	hostCfg := func(a string) v2.Host { return v2.Host{HostConfig: v2.HostConfig{Address: a}} }
+	member := map[string]bool{}
+	for _, n := range names {
+		if err := cm.AddOrUpdatePrimaryCluster(v2.Cluster{Name: n, ClusterType: v2.SIMPLE_CLUSTER, LbType: v2.LB_ROUNDROBIN}); err != nil {
+			s.Violate("C16", "harness_manager", "%v", err)
+			return
+		}
+		_ = cm.UpdateClusterHosts(n, []v2.Host{hostCfg(addr), hostCfg(other)})
+		member[n] = true
+	}
+	current := func(n string) types.Host {
+		var out types.Host
+		if snap := cm.GetClusterSnapshot(context.Background(), n); snap != nil {
+			snap.HostSet().Range(func(h types.Host) bool {
+				if h.AddressString() == addr {
+					out = h
+				}
+				return true
+			})
+		}
+		return out
+	}
+	bits := []api.HealthFlag{api.FAILED_ACTIVE_HC, api.FAILED_OUTLIER_CHECK}
+	var ref uint64
+	var hist []string
+	for i, n := 0, 3+ch.Pick("work", "lifetime_ops", 8); i < n; i++ {
+		cn := names[ch.Pick("work", "lifetime_cluster", 2)]
+		switch ch.Pick("work", "lifetime_op", 5) {
+		case 0, 1: // a condition comes or goes, through the host object that cluster uses right now
+			h := current(cn)
+			if h == nil {
+				continue
+			}
+			b := bits[ch.Pick("work", "lifetime_bit", 2)]
+			if ch.Bool("work", "lifetime_set") {
+				h.SetHealthFlag(b)
+				ref |= uint64(b)
+				hist = append(hist, fmt.Sprintf("set %#x via %s", b, cn))
+			} else {
+				h.ClearHealthFlag(b)
+				ref &^= uint64(b)
+				hist = append(hist, fmt.Sprintf("clear %#x via %s", b, cn))
+			}
+		case 2:
+			_ = cm.RemoveClusterHosts(cn, []string{addr})
+			member[cn] = false
+			hist = append(hist, "remove from "+cn)
+		case 3:
+			_ = cm.UpdateClusterHosts(cn, []v2.Host{hostCfg(addr), hostCfg(other)})
+			member[cn] = true
+			hist = append(hist, "hosts of "+cn+" delivered again")
+		case 4:
+			if !member[cn] {
+				_ = cm.AppendClusterHosts(cn, []v2.Host{hostCfg(addr)})
+				member[cn] = true
+				hist = append(hist, "append to "+cn)
+			}
+		}
+		for _, n := range names {
+			if h := current(n); h != nil {
+				w.Stats["lifetime_observations"]++
+				if got := uint64(h.HealthFlag()); got != ref || h.Health() != (ref == 0) {
+					s.Violate("C16", "condition_lost_or_invented_across_updates", "address %s as cluster %s sees it: flags %#x healthy=%v; set and not cleared so far: %#x; history %v", addr, n, got, h.Health(), ref, hist)
+					return
+				}
+			}
+		}
+	}
+	w.nt = len(hist) >= 3
+	s.SigAdd(fmt.Sprint("lifetime", hist))
+	for _, n := range names {
+		_ = cm.RemovePrimaryCluster(n)
+	}
 }
 
 // ---------- (a) flags ----------
